@@ -22,6 +22,7 @@ pub fn run(a: &Args) {
         let k = rng.below(idx.len());
         let i = idx.swap_remove(k);
         let t = &pool[i].1;
+        note_input(t);
         let r = std::panic::catch_unwind(|| {
             let mut recs: Vec<Value> = vec![];
             let mut p = Parser::new_from_str(t);
